@@ -45,8 +45,8 @@ func MakePortSet(all bool) *PortSet {
 
 // Equal: return true if current object equals another PortSet object
 func (p *PortSet) Equal(other *PortSet) bool {
-	return p.Ports.Equal(other.Ports) && reflect.DeepEqual(p.NamedPorts, other.NamedPorts) &&
-		reflect.DeepEqual(p.ExcludedNamedPorts, other.ExcludedNamedPorts)
+	// ExcludedNamedPorts records names that were removed earlier: bookkeeping only, not part of the set
+	return p.Ports.Equal(other.Ports) && reflect.DeepEqual(p.NamedPorts, other.NamedPorts)
 }
 
 // IsEmpty: return true if current object is empty (no ports allowed)
